@@ -67,6 +67,11 @@ def showEs (x : NetA) (a : String) : String :=
       (rows.filter fun q => normEdge d q.1 == p).map fun q => s!"{p.1},{p.2},{showRat q.2}"
     if out.isEmpty then "-" else join out ";"
 
+def showAvg (x : NetA) (a : String) : String :=
+  match avgLinkAttrA x a with
+  | none => "none"
+  | some v => showRats v
+
 def showNet (x : NetA) : String :=
   let net := x.core
   let gvw := match net.gvw with
@@ -76,7 +81,8 @@ def showNet (x : NetA) : String :=
   join [toString net.N, toString net.nLinks, showRat net.density, showIntMat net.spA,
         showGraph net, showRats net.w, showRat net.total, showRat net.mean,
         showAttr x (attrName 1), gvw, showAttr x (attrName 2), showAttr x (attrName 3), names,
-        showEs x (attrName 1), showEs x (attrName 2), showEs x (attrName 3)] "|"
+        showEs x (attrName 1), showEs x (attrName 2), showEs x (attrName 3),
+        showAvg x (attrName 1), showAvg x (attrName 2)] "|"
 
 /-! arguments of the history statements are small formulas evaluated on both sides
 (harness/c05.py: `formula_w`, `formula_v`, `formula_a`) -/
